@@ -145,6 +145,32 @@ UNITS += [
     member('awt_bool', 'awt_bool', SUBS + 'next_awt::operator bool()', stubs=SUB_STUBS),
     member('awt_not', 'awt_not', SUBS + 'next_awt::operator!()', stubs=SUB_STUBS),
 ]
+
+# ---- (W2) iterator / range-for access of a subscriber: forwarders onto the blocking next() (abstract callee next_awt::operator bool()) and value()
+GIT_T = 'cocls::generator_iterator<cocls::subscriber<int> >'
+ITS = GIT_T + '::'
+TYPES3 = dict(TYPES2, GIT=GIT_T)
+ITER_STUBS = {'st_awt_bool': rx(SUBS + 'next_awt::operator bool()'), 'st_shq_copy': STUBS['st_shq_copy'], 'st_shq_dtor': STUBS['st_shq_dtor']}
+def iterm(name, sig, **kw):
+    return dict(member(name, name, sig, stubs=ITER_STUBS), types=TYPES3, spec=['C16/ps_spec.h', 'C16/sub_spec.h', 'C16/iter_spec.h'], timeout=120, **kw)
+UNITS += [
+    iterm('sub_begin', SUBS + 'begin()'), iterm('sub_end', SUBS + 'end()'),
+    iterm('it_inc', ITS + 'operator++()'), dict(iterm('it_postinc', ITS + 'operator++(int)'), defines=[HOOK_REG, 'C16_NEXT_HAVOCS_VALUE 1']),
+    iterm('it_deref', ITS + 'operator*() const'), iterm('it_arrow', ITS + 'operator->() const'),
+    iterm('it_eq', ITS + 'operator==(%s const&) const' % GIT_T), iterm('it_ne', ITS + 'operator!=(%s const&) const' % GIT_T),
+]
+
+# the range-for loop as a whole (client loop of the driver over the REAL begin/end/!=/*/++; next() produces an arbitrary run): loop contract + bounded sibling
+def rangefor(name, **kw):
+    d = iterm(name, '^drv_sub_range_for$', **kw)
+    d['names'] = {'range_for': '^drv_sub_range_for$'}; d['enforce'] = 'range_for'; d['harness'] = 'h_range_for'
+    d['under_contract'] = ['range-for over cocls::subscriber<int> (begin / end / operator!= / operator* / operator++ composed)']
+    d['defines'] = d['defines'] + ['C16_RANGE_FOR 1'] + list(kw.get('defines', []))
+    return d
+UNITS += [rangefor('range_for', loop_contracts=True, kind='contract'),
+          dict(rangefor('range_for_bounded', loop_contracts=False, unwind=5, kind='bounded', bounded='runs of <= 3 values before end-of-stream; loop unwound instead of the loop contract (whose invariant names the range-for temporaries)'),
+               defines=[HOOK_REG, 'C16_RANGE_FOR 1', 'CV_BOUNDED_FALLBACK 1'])]
+
 # ---- native replays of the two genuine defects (real headers, -fno-access-control; exit != 0 = the real code misbehaves)
 RP_FLAGS = ['-fno-access-control', '-D_GLIBCXX_ASSERTIONS', '-g']
 RP_CLOSE = dict(src='c16_close_race.cpp', mode='all_values', flags=RP_FLAGS)
@@ -167,6 +193,27 @@ CTOR_BOUNDARY = [r'^std::vector<cocls::publisher<int>::queue::subreg_t.*::vector
 def ctor(name, sig):
     return unit(name, name, sig, hooks=False, lib=LIBS + ['model_pubsub_ctor.c'], spec=['C16/ps_spec.h', 'C16/ctor_spec.h'], extra_boundary=CTOR_BOUNDARY, timeout=120)
 UNITS += [ctor('q_ctor', QS + 'queue()'), ctor('q_ctor_mm', QS + 'queue(unsigned long, unsigned long)')]
+# ---- (W2) publisher constructors (make_shared = assumed contract running the REAL queue constructor), queue::~queue(), and the destruction route as one unit
+MK_RX = r'^std::shared_ptr<cocls::publisher<int>::queue> std::make_shared<cocls::publisher<int>::queue>\(\)$'
+MK_MM_RX = r'^std::shared_ptr<cocls::publisher<int>::queue> std::make_shared<cocls::publisher<int>::queue, unsigned long&, unsigned long&>\(unsigned long&, unsigned long&\)$'
+def pubctor(name, sig, qsig, qalias, mk_alias, mk_rx):
+    return dict(name=name, driver='c16_pub.cpp', roots=[rx(sig), rx(qsig)], names={name: rx(sig), qalias: rx(qsig)}, names_opt={mk_alias: mk_rx}, types=TYPES2,
+                boundary=BOUNDARY + CTOR_BOUNDARY + [mk_rx], lib=LIBS + ['model_pubsub_ctor.c'], spec=['C16/ps_spec.h', 'C16/sub_spec.h', 'C16/ctor_spec.h', 'C16/pubctor_spec.h'],
+                harness='h_' + name, enforce=name, defines=[HOOK_REG], under_contract=[sig], timeout=120, kind='contract', cbmc_flags=['--sat-solver', 'cadical'])
+UNITS += [
+    pubctor('pub_ctor', PUBS + 'publisher()', QS + 'queue()', 'q_ctor', 'st_mk_q', MK_RX),
+    pubctor('pub_ctor_mm', PUBS + 'publisher(unsigned long, unsigned long)', QS + 'queue(unsigned long, unsigned long)', 'q_ctor_mm', 'st_mk_q_mm', MK_MM_RX),
+    dict(name='q_dtor', driver='c16_pub.cpp', roots=[rx(QS + '~queue()')], names={'q_dtor': rx(QS + '~queue()')}, types=TYPES2,
+         boundary=BOUNDARY + [r'^std::vector<cocls::publisher<int>::queue::subreg_t.*::~vector\(\)$', r'^std::deque<int, std::allocator<int> >::~deque\(\)$'],
+         lib=LIBS + ['model_pubsub_dtor.c'], spec=['C16/ps_spec.h', 'C16/sub_spec.h', 'C16/pubctor_spec.h'], harness='h_q_dtor', enforce='q_dtor', defines=[HOOK_REG],
+         under_contract=[QS + '~queue()'], timeout=120, kind='contract'),
+    dict(unit('pub_dtor_close', 'pubd_dtor', PUBS + '~publisher()', loop_contracts=True, extra_boundary=[MIN_IL_RX, STUBS['st_shq_dtor']],
+              names_opt={'st_shq_dtor': STUBS['st_shq_dtor'], 'std_min_il': MIN_IL_RX, 'q_push_lk': rx(PUSH_LK_SIG)},   # names_opt: a destructor that stops closing fails a postcondition, not the extraction
+              defines=['C16_UNLOCK_PUSH 1', 'C16_UNLOCK_PUSH_WHEN (gh_closed0 == 0 && gh_n_unlock_chk == 1)', 'PS_LOCKCHECK_WB_ITER 1'],
+              spec=['C16/ps_spec.h', 'C16/sub_spec.h', 'C16/pubctor_spec.h']),
+         types=TYPES2, harness='h_pub_dtor_close', timeout=600,
+         under_contract=[PUBS + '~publisher()', QS + 'close()', PUSH_LK_SIG + ' [as called by close(): count 0]']),
+]
 META = dict(
     level='proof',
     level_text=('INDUCTION BASE: both constructors of publisher<int>::queue (units q_ctor, q_ctor_mm; container default constructors = assumed "empty" contracts of lib/model_pubsub_ctor.c) establish the queue invariant Q_INV and the entry state STATE_OK that every other unit requires - '
@@ -185,7 +232,20 @@ META = dict(
         'element of the retained window check_next() was handed, noted by the deque model - not the registration counter), the subscriber standing at that position afterwards; skip_to_recent = newest. History lemma L '
         '(unbounded number of next() calls, loop invariant over the contract of one next()): the k-th value received is the one published at subscription point + k + 1; L-skip: of any two values a skipping '
         'subscriber receives the later one sits at a strictly larger stream position. The hypothesis of both lemmas (SUBSCRIBER_ACTIVE, retention) is a postcondition of every subscribe_lk form; a copy starts at the '
-        'last position DELIVERED to the original (a parked original is registered one past it - checked where a subscriber gets parked).'),
+        'last position DELIVERED to the original (a parked original is registered one past it - checked where a subscriber gets parked). '
+        'PUBLISHER CONSTRUCTORS / DESTRUCTION ROUTE / ITERATOR ACCESS (added): publisher() and publisher(max, min) (units pub_ctor, pub_ctor_mm) run the REAL queue constructor inside an assumed-contract '
+        'std::make_shared (one allocation, constructed in place with exactly the arguments given, one owner) and are verified against the induction base stated for the queue the new publisher refers to: open, nothing '
+        'published, nobody registered, exactly the configured / default lengths in the right order. Unit pub_dtor_close puts the whole DESTRUCTION ROUTE under one contract - the real ~publisher(), queue::close() and '
+        'push_lk (both loops under their loop contracts) down to the container models, from every state satisfying the queue invariant: the queue is closed afterwards; every awaiter parked in a registration is '
+        'collected and resumed exactly once, outside the lock, nobody else is, nobody stays parked; destroying a publisher whose queue is already closed wakes nobody and trims nothing (closed exactly once); the '
+        'stream position, the published values and - for every registered subscriber the window served - the retained items it still needs stay in place (a subscriber that outlives the publisher keeps reading up to '
+        'the end and then gets end-of-stream: get_value_lk / proto_* with _closed set); the invariant holds at every release of the mutex and the obligations of push_lk at its own release are checked on this route too; '
+        'the publisher\'s reference is dropped. queue::~queue() (unit q_dtor; runs in whoever drops the last reference) releases each container exactly once, resumes nobody and takes no lock. '
+        'subscriber<int>::begin() / end() and generator_iterator<subscriber<int>>::operator++ / ++(int) / * / -> / == / != (units sub_begin, sub_end, it_*) are verified as forwarders onto the blocking next() '
+        '(abstract callee next_awt::operator bool(), itself units awt_bool / proto_blocking__*) and value(): begin() = exactly one next(), end() = none, ++ = exactly one next() on the iterator\'s subscriber, '
+        '* / -> = the subscriber\'s current value object, it != end() <=> the last next() returned true. Unit range_for (loop contract; bounded sibling range_for_bounded) runs a client range-for loop over these '
+        'REAL members with next() producing an arbitrary run: the loop body is run exactly once per successful next(), before the following next(), on the subscriber\'s value object, the k-th body run sees the k-th '
+        'delivered value (ghost index), the loop ends at the first end-of-stream and next() is never called again after it - the range-for style observes exactly the run that `while (next()) value()` observes.'),
     level_note=('AUDIT D (defects 3, 4 below; fix_skip_dup.diff, fix_copy_parked.diff): (3) get_value_lk hands a skipping subscriber the newest / oldest retained value without recording its position in the registration: '
         'the next next() delivers the same stream position again (clauses C16-delivered-position / C16-skip-forward; replay c16_skip_dup.cpp); (4) subscribe_lk(h, sub) copies the registration of a PARKED original, which stands '
         'one past its last delivered position: bogus end-of-stream / skipped item for the copy (clauses C16-copy-position / C16-copy-active; replay c16_copy_parked.cpp). Both had verified before because the clauses had been '
@@ -200,13 +260,21 @@ META = dict(
         'TSan confirms the race against a reallocating subscribe). T = int only. Behaviour after the first end-of-stream is outside the property (and outside the preconditions) - NOTE: that exclusion hides real behaviour in the '
         'skipping modes, where end-of-stream is NOT sticky: after a closed-and-drained end-of-stream a further next() runs the registration past the stream (advance_lk: max(l._pos+1, ...)), get_value_lk no longer sees l._pos == _pos and '
         'hands out _q[0] (skip_to_recent) / the clamped _q[size()-1] (skip_if_behind) again - the last value is re-delivered after end-of-stream (confirmed natively: EOF, 2, 2, 2 ...; with fix_skip_dup.diff: EOF, 2, EOF, 2 ...); '
-        'all_values and a kicked subscriber stay at end-of-stream. A caller that loops `while (next())` never sees it.'),
+        'all_values and a kicked subscriber stay at end-of-stream. A caller that loops `while (next())` never sees it (nor does a range-for loop: unit range_for proves next() is not called after end-of-stream). '
+        'pub_dtor_close is a SEQUENTIAL composition (no rely step between the two critical sections of push_lk on this route; the thread-modular reading of push_lk is unit push_lk). '
+        'OBSERVATION (outside the property: its quantifier has no "copy a publisher"): publisher<T> declares a destructor but no copy / move members, so it is implicitly COPYABLE (and "moved" by copy); ~publisher() of ANY copy '
+        'closes the queue the other copies still publish to - a subscriber blocked in next() gets end-of-stream while a publisher handle is alive (native: replay/c16_pub_copy_closes.cpp exits 3). '
+        'generator_iterator::storage::operator* / operator-> (result of the postfix ++) do not compile (const member returning a non-const reference; already recorded under C13, replay/c13_iterator_storage_compile.cpp): '
+        'unit it_postinc reads the returned storage\'s member directly.'),
     technique=('CBMC 6.11 code contracts (requires/ensures/assigns + loop contracts) enforced per function via goto-instrument --dfcc on the C translation (ir2c) of clang IR of the real publisher.h; '
         'assumed-contract models of std::deque<int>, std::vector<subreg_t>, std::vector<awaiter*>, std::find_if, std::min(initializer_list), std::copy(front_inserter), awaiter::resume; '
         'forwarder units with logging abstract callees; thread-modular rely step at lock acquisitions (CV_ON_LOCK hook), invariant obligations at lock releases (CV_ON_UNLOCK); history lemma with '
         'contract replacement + loop invariant; bounded unwinding stand-in for the free list'),
     trusted_base=[
         'lib/model_pubsub_ctor.c: default constructors of the three containers = empty (deque numbering starts at 0: the first element pushed gets id 1 = stream position 1)',
+        'specs/C16/pubctor_spec.h: std::make_shared<queue>(args...) = one allocation + the REAL translated queue constructor with exactly these arguments, one owner (control block not modelled)',
+        'lib/model_pubsub_dtor.c: destructors of std::deque<int> / std::vector<subreg_t> = release the storage, resume nobody (counted: each exactly once)',
+        'specs/C16/iter_spec.h: next_awt::operator bool() as an abstract callee of the iterator units (logs the call / produces an arbitrary run of values ended by end-of-stream); the body of the range-for loop (c16_sink) = user code',
         'lib/model_pubsub.c: std::deque<int> as a window over absolute ids (push_front, operator[], size, resize that never grows, std::copy to a front_inserter); content tracked at one arbitrary id',
         'lib/model_pubsub_dpos.c: operator[] of the deque model notes the absolute id (= stream position) of the element it hands out (gh_dq_ref_id); the value a subscriber receives is the one read through that reference',
         'lib/model_pubsub.c: std::vector<subreg_t> with one arbitrary tracked slot; a reference to any OTHER slot yields arbitrary content constrained by instances of the unit invariant for "every other slot" '
